@@ -1,7 +1,7 @@
 (* C10 / C12 statements restated on the functions regenerated from the source *)
 From Coq Require Import ZArith QArith Qabs List.
 From LV Require Import Base.Prelude Model.Bezier Model.Winding Model.LineInter Gen.Functions
-  Proofs.C10_Bezier Proofs.C12_LineInter Proofs.C18_Winding Proofs.Gen_Geom.
+  Proofs.C10_Bezier Proofs.C11_Quad Proofs.C12_LineInter Proofs.C18_Winding Proofs.Gen_Geom.
 Open Scope Q_scope.
 
 Theorem src_quad_split_retraces : forall c t u,
@@ -59,3 +59,36 @@ Proof. exact inter_complete. Qed.
 Theorem src_hit_wn_spec : forall p path, off_outline p (path_edges path) ->
   fold_left (fun w e => src_test_segment p (mkLine (fst e) (snd e)) w) (path_edges path) 0%Z = wn p (path_edges path).
 Proof. exact Proofs.C18_Winding.hit_wn_spec. Qed.
+
+(* C11 on the generated functions: the exact bounding ranges of a quadratic, as the source computes them, contain every
+   point of the curve, are attained on it, and lie within the fast ranges *)
+Theorem src_quad_box_contains_curve : forall c t, 0 <= t -> t <= 1 ->
+  (fst (src_quad_bounding_range_x c) <= px (src_quad_sample c t) /\ px (src_quad_sample c t) <= snd (src_quad_bounding_range_x c)) /\
+  (fst (src_quad_bounding_range_y c) <= py (src_quad_sample c t) /\ py (src_quad_sample c t) <= snd (src_quad_bounding_range_y c)).
+Proof.
+  intros c t H0 H1.
+  destruct (quad_xy c t) as [Hx Hy]. cbn [px py fst snd] in Hx, Hy.
+  change (src_quad_sample c t) with (q_sample c t).
+  change (src_quad_bounding_range_x c) with (q_bounding_range (px (q_from c)) (px (q_ctrl c)) (px (q_to c))).
+  change (src_quad_bounding_range_y c) with (q_bounding_range (py (q_from c)) (py (q_ctrl c)) (py (q_to c))).
+  destruct (Proofs.C11_Quad.quad_range_contains (px (q_from c)) (px (q_ctrl c)) (px (q_to c)) t H0 H1) as [A B].
+  destruct (Proofs.C11_Quad.quad_range_contains (py (q_from c)) (py (q_ctrl c)) (py (q_to c)) t H0 H1) as [C D].
+  unfold q_x in Hx. unfold q_y in Hy.
+  split; split.
+  - rewrite Hx. exact A.
+  - rewrite Hx. exact B.
+  - rewrite Hy. exact C.
+  - rewrite Hy. exact D.
+Qed.
+
+Theorem src_quad_fast_box_contains_exact : forall c,
+  fst (src_quad_fast_bounding_range_x c) <= fst (src_quad_bounding_range_x c) /\
+  snd (src_quad_bounding_range_x c) <= snd (src_quad_fast_bounding_range_x c) /\
+  fst (src_quad_fast_bounding_range_y c) <= fst (src_quad_bounding_range_y c) /\
+  snd (src_quad_bounding_range_y c) <= snd (src_quad_fast_bounding_range_y c).
+Proof.
+  intro c.
+  destruct (Proofs.C11_Quad.quad_fast_contains_exact (px (q_from c)) (px (q_ctrl c)) (px (q_to c))) as [A B].
+  destruct (Proofs.C11_Quad.quad_fast_contains_exact (py (q_from c)) (py (q_ctrl c)) (py (q_to c))) as [C D].
+  repeat split; assumption.
+Qed.
